@@ -244,6 +244,11 @@ class Gen:
         if k == "wfcond":
             n = rng.randrange(1, 5)
             states = [gen_value(rng, 1, prof.get("rich", True)) for _ in range(n)]
+            if n >= 2 and rng.random() < 0.3:
+                # "poll a job until it is done": the same state (and the same delay) several polls in a row
+                i0 = rng.randrange(n - 1)
+                for i_ in range(i0 + 1, n - 1 if rng.random() < 0.5 else i0 + 2):
+                    states[i_] = states[i0]
             att = [{"do": "ret", "v": s} for s in states]
             if rng.random() < prof.get("check_fail_p", 0.15):
                 att[rng.randrange(n)] = {"do": "raise", "cls": rng.choice(USER_ERRS), "msg": "check failed"}
@@ -252,6 +257,9 @@ class Gen:
                 if b:
                     a["block"] = b  # a check that takes time: its START travels alone, a crash can leave the poll STARTED
             strat = [{"cont": rng.choice([0, 1, 1, 3, 30])} for _ in range(n - 1)] + [{"stop": 1}]
+            if n >= 3 and rng.random() < 0.4:
+                d_ = rng.choice([1, 2])
+                strat = [{"cont": d_} for _ in range(n - 1)] + [{"stop": 1}]
             st = {"op": "wfcond", "check": {"attempts": att}, "strategy": strat,
                   "initial": gen_value(rng, 1, prof.get("rich", True))}
             self.custom_serdes(st)
@@ -298,6 +306,8 @@ class Gen:
                 b = {"body": self.seq(depth + 1, True, lo=1, hi=3)}
                 if rng.random() < 0.3:
                     b["ret"] = gen_value(rng, 0, prof.get("rich", True))
+                elif b["body"][-1]["op"] in ("parallel", "map") and rng.random() < 0.6:
+                    b["ret"] = ["last"]  # the branch returns the nested BatchResult itself
                 branches.append(b)
             if k == "parallel":
                 st = {"op": "parallel", "branches": branches}
